@@ -46,6 +46,9 @@ type XAConn struct {
 	branchRegisterTime time.Time
 	prepareTime        time.Time
 	isConnKept         bool
+	// detached: opened by ConnectionForXA for one phase-two request, not owned
+	// by the pool; closed when that request is done
+	detached bool
 	// broken: an XA branch could neither be ended nor rolled back on this
 	// connection; only closing it makes the database drop the branch
 	broken bool
@@ -405,8 +408,13 @@ func (c *XAConn) commitErrorHandle(ctx context.Context, cause error) error {
 	return err
 }
 
+// ShouldBeHeld: only a database that ties a prepared branch to its session
+// needs the connection kept for phase two. Everywhere else the connection goes
+// back to the pool after phase one and serves other goroutines, so phase two
+// (and the timeout checker) must not touch it: they finish the branch over a
+// connection of their own
 func (c *XAConn) ShouldBeHeld() bool {
-	return c.res.IsShouldBeHeld() || (c.res.GetDbType().String() != "" && c.res.GetDbType() != types.DBTypeUnknown)
+	return c.res.IsShouldBeHeld()
 }
 
 func (c *XAConn) checkTimeout(ctx context.Context, now time.Time) error {
@@ -456,6 +464,16 @@ func (c *XAConn) CloseForce() error {
 	c.cleanXABranchContext()
 	c.releaseIfNecessary()
 	return nil
+}
+
+// CloseDetached closes a connection that was opened for one phase-two request
+func (c *XAConn) CloseDetached() {
+	if c == nil || !c.detached || c.Conn == nil || c.Conn.targetConn == nil {
+		return
+	}
+	if err := c.Conn.targetConn.Close(); err != nil {
+		log.Errorf("close the phase two connection of xa xid:%s err:%v", c.xaBranchXid, err)
+	}
 }
 
 func (c *XAConn) XaCommit(ctx context.Context, xaXid XAXid) error {
